@@ -48,9 +48,9 @@ type Case struct {
 	Opts hist.FarmOpts `json:"opts"`
 	Kind string        `json:"kind"`
 	Gapn uint64        `json:"nonce_gap,omitempty"` // OLVM only: the original's nonce is the account's next nonce plus this
-	Pre  int           `json:"pre"`  // empty blocks between the farm prefix and the block that executes the original
-	Orig []byte        `json:"orig"` // the executed transaction
-	Gap  int           `json:"gap"`  // the first resubmission is delivered Gap blocks after the execution (1..10)
+	Pre  int           `json:"pre"`                 // empty blocks between the farm prefix and the block that executes the original
+	Orig []byte        `json:"orig"`                // the executed transaction
+	Gap  int           `json:"gap"`                 // the first resubmission is delivered Gap blocks after the execution (1..10)
 	Encs []Enc         `json:"resubmissions"`
 }
 
